@@ -107,11 +107,23 @@ def rule_a_b(repo, chk):
         chk.ob('a', f.ref, 'checkResponse() is given the parsed header, the stored password, the request method and the configured realm',
                pv is not None and kw.get('realm') == f.params[2] and kw.get('method') == f'{f.params[0]}.method', loc(f, c), detail=f'`{src(c)[:100]}`', discr='check-args')
         if pv:
-            q = pat.guarded_by(g, t, pat.test_edge(lambda tt, pol: pat.fact_matches(pat.compare_fact(tt, pol), pv, ('is not', '!='), 'None')))
-            if q is not None and any(pat.fact_matches(pat.compare_fact(o, 'T'), pv, ('is not', '!='), 'None') for o in short_circuit.get(t, [])):
+            def is_text(tt, pol):
+                # `isinstance(password, str)` (also with bytes in the tuple): the only answers of a user table that are a password
+                return pol == 'T' and isinstance(tt, ast.Call) and call_name(tt) == 'isinstance' and len(tt.args) == 2 and src(tt.args[0]) == pv \
+                    and all(x in ('str', 'bytes') for x in ([src(e_) for e_ in tt.args[1].elts] if isinstance(tt.args[1], ast.Tuple) else [src(tt.args[1])]))
+            known = lambda tt, pol: pat.fact_matches(pat.compare_fact(tt, pol), pv, ('is not', '!='), 'None') or is_text(tt, pol)  # noqa: E731
+            q = pat.guarded_by(g, t, pat.test_edge(known))
+            if q is not None and any(known(o, 'T') for o in short_circuit.get(t, [])):
                 q = None      # `password is not None and checkResponse(…)`: short-circuit evaluation
             chk.ob('b', f.ref, 'the stored password is known to be not None when checkResponse() is evaluated', q is None, loc(f, c),
                    path=pat.path_lines(q) if q else None, discr='password-not-none')
+            # a user table given as a function may answer "no such user" with False or 0 as well as with None: whatever is not text is formatted into the digest
+            # like a password ('False', '0'), and a header computed with that word verifies
+            q2 = pat.guarded_by(g, t, pat.test_edge(is_text))
+            if q2 is not None and any(is_text(o, 'T') for o in short_circuit.get(t, [])):
+                q2 = None
+            chk.ob('b', f.ref, 'only a password that is text reaches checkResponse() (None, False, 0 — every way a look-up says "no such user" — is refused)', q2 is None,
+                   loc(f, c), path=pat.path_lines(q2) if q2 else None, discr='password-is-text')
             defs = [n for n in g.nodes if n.kind == 'stmt' and pv in Q.node_defs(n)]
             # the presented user name: `ah['username']`, or a local that is only ever bound to it
             unames = ["ah['username']"]
@@ -365,6 +377,18 @@ def rule_e(repo, chk):
     ok = bool(st) and all(src(n.value) == arg for n in st)
     chk.ob('e', i.ref, 'the configured gateway list is stored in the attribute the request handler tests', ok, loc(i, (st or [i.node])[0]),
            detail='; '.join(src(n) for n in st), discr='gateways-stored')
+    # one address given as a plain string must not be stored as such: `peer in '192.168.10.1'` is a substring test ('92.168.10.1' would be trusted)
+    gi = i.cfg()
+    stn = [n for n in gi.nodes if n.kind == 'stmt' and isinstance(n.ast, ast.Assign) and 'self' in pat.stores_attr(n.ast, 'trusted_gateways')]
+    wraps = [n for n in gi.nodes if n.kind == 'stmt' and isinstance(n.ast, ast.Assign) and src(n.ast.targets[0]) == arg and
+             (isinstance(n.ast.value, (ast.Tuple, ast.List, ast.Set)) or (isinstance(n.ast.value, ast.Call) and call_name(n.ast.value) in ('tuple', 'list', 'set', 'frozenset')
+                                                                           and n.ast.value.args and isinstance(n.ast.value.args[0], (ast.Tuple, ast.List, ast.Set))))]
+    not_str = pat.test_edge(lambda tt, pol: pol == 'F' and isinstance(tt, ast.Call) and call_name(tt) == 'isinstance' and len(tt.args) == 2 and src(tt.args[0]) == arg
+                            and 'str' in src(tt.args[1]))
+    for n in stn:
+        qs = Q.reachable_without(gi, n, avoid_node=lambda m: m in wraps, avoid_edge=not_str)
+        chk.ob('e', i.ref, 'a gateway given as one string is stored as a collection of that one address (membership in a string is a substring test)', qs is None, loc(i, n.ast),
+               path=pat.path_lines(qs) if qs else None, discr='gateway-string-wrapped')
     h = repo.func(WEB_VHOSTS, 'VirtualHosts._on_request')
     chk.touch(h)
     from .common import normalised
